@@ -10,6 +10,7 @@ Lemma cl_unsafe_job_signals_on_drop : fact_unsafe_job_signals_on_drop = true. Pr
 Lemma cl_drop_is_sync_free : fact_drop_is_sync_free = true. Proof. reflexivity. Qed.
 Lemma cl_drop_only_syncs : fact_drop_only_syncs = true. Proof. reflexivity. Qed.
 Lemma cl_syncfuture_field_order : fact_syncfuture_field_order = true. Proof. reflexivity. Qed.
+Lemma cl_syncfuture_no_drop_impl : fact_syncfuture_no_drop_impl = true. Proof. reflexivity. Qed.
 Lemma cl_sync_drain_push_back : fact_sync_drain_push_back = true. Proof. reflexivity. Qed.
 Lemma cl_sync_bg_push_back : fact_sync_bg_push_back = true. Proof. reflexivity. Qed.
 
